@@ -248,3 +248,91 @@ func c11TwoBlocks(minM int) {
 
 func H_c11_twoblocks_q() { c11TwoBlocks(9) }
 func H_c11_twoblocks_t() { c11TwoBlocks(8) }
+
+// vgPermAll draws a permutation of 0..n-1 by a Lehmer code: exactly n! paths, none dropped.
+func vgPermAll(name string, n int) []int {
+	rest := make([]int, n)
+	for i := range rest {
+		rest[i] = i
+	}
+	p := make([]int, n)
+	for k := 0; k < n; k++ {
+		c := rt.Choice(name, len(rest))
+		p[k] = rest[c]
+		rest = append(rest[:c], rest[c+1:]...)
+	}
+	return p
+}
+
+// c11Kuratowski: subdivisions of K5 / K3,3 (and the same with one edge removed first, which
+// are planar) under EVERY relabelling: the answer must be the known one and IsPlanar must not panic.
+// quick=true: only the non-planar bases and (K5 and K3,3 being edge-transitive) only the first edge
+// is subdivided in the first step; every relabelling is still covered.
+func c11Kuratowski(subdiv int, quick bool) {
+	var adj [][]bool
+	base := rt.Choice("base", 2)
+	if base == 0 { // K5
+		adj = make([][]bool, 5)
+		for i := range adj {
+			adj[i] = make([]bool, 5)
+			for j := range adj[i] {
+				adj[i][j] = i != j
+			}
+		}
+	} else { // K3,3 on {0,1,2} | {3,4,5}
+		adj = make([][]bool, 6)
+		for i := range adj {
+			adj[i] = make([]bool, 6)
+			for j := range adj[i] {
+				adj[i][j] = (i < 3) != (j < 3)
+			}
+		}
+	}
+	planar := false
+	if !quick && rt.Choice("removeEdge", 2) == 1 {
+		// all edges are equivalent in K5 and in K3,3: removing one gives a planar graph
+		a, b := 0, len(adj)-1
+		adj[a][b], adj[b][a] = false, false
+		planar = true
+	}
+	grow := func(a [][]bool) [][]bool {
+		k := len(a)
+		out := make([][]bool, k+1)
+		for i := range out {
+			out[i] = make([]bool, k+1)
+			if i < k {
+				copy(out[i], a[i])
+			}
+		}
+		return out
+	}
+	for s := 0; s < subdiv; s++ {
+		k := len(adj)
+		// subdivide a symbolic edge
+		var es [][2]int
+		for i := 0; i < k; i++ {
+			for j := i + 1; j < k; j++ {
+				if adj[i][j] {
+					es = append(es, [2]int{i, j})
+				}
+			}
+		}
+		e := es[0]
+		if !(quick && s == 0) {
+			e = es[rt.Choice("edge", len(es))]
+		}
+		adj = grow(adj)
+		adj[e[0]][e[1]], adj[e[1]][e[0]] = false, false
+		adj[e[0]][k], adj[k][e[0]], adj[e[1]][k], adj[k][e[1]] = true, true, true, true
+	}
+	n := len(adj)
+	p := vgPermAll("perm", n)
+	got, ok := c11Call(vgDense(vgRelabel(adj, p)), "Kuratowski subdivision")
+	if ok {
+		rt.Check(got == planar, "IsPlanar wrong on a relabelled subdivision of K5 / K3,3 (or of K5-e / K3,3-e)")
+	}
+	rt.Reach("end")
+}
+
+func H_c11_kuratowski_q() { c11Kuratowski(1, true) }
+func H_c11_kuratowski_t() { c11Kuratowski(1, false) }
